@@ -145,6 +145,9 @@ def run_rapid(prop, cfg, tier, base_seed, binaries):
         env["VERIF_VFLOW"] = binaries.get("vflow", "")
         env["VERIF_VFLOW_RACE"] = binaries.get("vflow_race", "")
         env["VERIF_REPO"] = REPO
+        env["VERIF_INFLIGHT_DIR"] = outdir
+        if cfg.get("race"):
+            env["GORACE"] = "halt_on_error=1"
         for k, v in tcfg.get("env", {}).items():
             env[k] = str(v)
         fh = open(logf, "w")
@@ -226,8 +229,18 @@ def classify_failures(prop, results, merged):
             d = os.path.join(REPLAY, prop)
             os.makedirs(d, exist_ok=True)
             dst = os.path.join(d, "crash-s%d.log" % seed)
-            # keep the in-flight case, if the harness printed one, plus the runtime's report
             open(dst, "w").write(text[-200000:])
+            # the harness keeps the case that was running in a side file: that is the replayable unit
+            infl = os.path.join(WORK, "out", prop, "inflight-s%d.json" % seed)
+            if os.path.exists(infl):
+                rp = os.path.join(d, "crash-s%d.json" % seed)
+                try:
+                    rf = json.load(open(infl))
+                    rf["message"] = (m.group(0) + " ... " + text[m.start():m.start() + 1500])
+                    json.dump(rf, open(rp, "w"), indent=1)
+                    dst = rp
+                except Exception:
+                    pass
             viol.append(("crash", dst))
         elif "test timed out" in text or "panic: test timed out" in text:
             inconc.append("shard seed=%d: go test deadline" % seed)
